@@ -301,7 +301,7 @@ def c02_need(o):
 
 def c14a_sig(o):
     a = o["c"]["a"]
-    return f"iss={a['iss']}:sub={a['sub']}:by={a['by']}:kid={a['kid']}:alg={a['alg']}:aud={a['aud']}:subject={o['c']['cfg']['subject']}:maxAge={o['c']['cfg']['maxAge']}:offset={o['c']['cfg'].get('offset', 0)}:probe={o['c']['probe']}"
+    return f"iss={a['iss']}:sub={a['sub']}:by={a['by']}:kid={a['kid']}:alg={a['alg']}:aud={a['aud']}:subject={o['c']['cfg']['subject']}:maxAge={o['c']['cfg']['maxAge']}:offset={o['c']['cfg'].get('offset', 0)}:probe={o['c']['probe']}:prior={o['c'].get('prior', 'none')}"
 
 
 def c14a_need(o):
